@@ -36,11 +36,29 @@ def make_ctx(widx, tier, opts):
     ctx.size = 3
     ctx.widx = widx
     ctx.probe = opts.get("probe")
+    # the OS builtins that need no import take string arguments through the import table of the stored module
+    ctx.tools.env = dict(ctx.tools.env, C10_VAR="abcde", C10_EMPTY="")
     return ctx
 
 
+OS_SNIPPETS = ['(println (getenv "C10_VAR"))', '(println (str_length (getenv "C10_UNSET_VARIABLE")))', '(println (== (getenv "C10_VAR") "abcde"))',
+               '(println (+ "cwd>" (int_to_string (str_length (getcwd)))))', '(println (str_length (getenv "C10_EMPTY")))',
+               '(println (+ (getenv "C10_VAR") (getenv "C10_VAR")))']
+
+
 def strategy(ctx):
-    return progen.programs(features=ctx.features, size=ctx.size)
+    from hypothesis import strategies as st
+    return st.tuples(progen.programs(features=ctx.features, size=ctx.size), st.lists(st.sampled_from(OS_SNIPPETS), min_size=0, max_size=3))
+
+
+def render(case):
+    prog, snippets = case
+    src = progen.print_program(prog)
+    if snippets:
+        head = "fn main() -> int {\n"
+        i = src.rindex(head) + len(head)
+        src = src[:i] + "".join("    %s\n" % x for x in snippets) + src[i:]
+    return src
 
 
 def three_way(ctx, src, name="p.nano"):
@@ -89,9 +107,12 @@ def fix_vm_stderr(err):
     return err.replace(b"Runtime error:", b"runtime error:")
 
 
-def run_case(ctx, prog, ev):
+def run_case(ctx, case, ev):
+    prog = case[0]
     ref = refeval.run(prog)
-    src = progen.print_program(prog)
+    src = render(case)
+    if case[1]:
+        ev.cls("with_os_builtin_calls")
     for k, v in prog["excluded"].items():
         ev.exclude(k, v)
     if ref.kind in ("budget",):
@@ -112,8 +133,8 @@ def run_case(ctx, prog, ev):
         raise CaseFailure(detail, {k: [x[0][-300:].decode("utf-8", "replace"), x[1]] for k, x in obs.items()} if obs and "run" in obs else obs)
 
 
-def describe_failure(ctx, prog, cf):
-    return {"src": progen.print_program(prog), "detail": cf.detail, "payload": cf.payload, "sigs": []}
+def describe_failure(ctx, case, cf):
+    return {"src": render(case), "detail": cf.detail, "payload": cf.payload, "sigs": []}
 
 
 FAULT_PROGRAMS = {
